@@ -34,7 +34,7 @@ def makeRoom (s : St κ ν) (size : Nat) (hitB2 : Bool) : St κ ν :=
   if s.t1.length + s.t2.length ≥ size then replace s size hitB2 else s
 
 /-- a miss after room was made: keep the ghost lists trim (with the lengths from before `replace`), admit to recent -/
-def admit (s1 : St κ ν) (size b1len b2len : Nat) (k : κ) (v : ν) : St κ ν :=
+def admitNew (s1 : St κ ν) (size b1len b2len : Nat) (k : κ) (v : ν) : St κ ν :=
   let s2 := if b1len > size - s1.p then { s1 with b1 := s1.b1.dropLast } else s1
   let s3 := if b2len > s2.p then { s2 with b2 := s2.b2.dropLast } else s2
   { s3 with t1 := (k, v) :: s3.t1 }
@@ -57,7 +57,7 @@ def put (s : St κ ν) (size : Nat) (k : κ) (v : ν) : St κ ν × PutResult κ
     let p' := s.p - min s.p (max 1 (s.b1.length / s.b2.length))
     let s1 := makeRoom { s with p := p', b2 := erase k s.b2 } size true
     ({ s1 with t2 := (k, v) :: s1.t2 }, .update old)
-  | none => (admit (makeRoom s size false) size s.b1.length s.b2.length k v, .put)   -- miss
+  | none => (admitNew (makeRoom s size false) size s.b1.length s.b2.length k v, .put)   -- miss
 
 def get (s : St κ ν) (k : κ) (w : Option ν) : St κ ν × Option ν :=
   match find k s.t1 with
